@@ -30,7 +30,14 @@ class Report:
     # ------------------------------------------------------------------ recording
     def rule(self, rid, desc, min_instances=1):
         self._cur = rid
-        self.rules.setdefault(rid, dict(min=min_instances, desc=desc, count=0, viol=0))
+        if rid in self.rules:
+            # the same rule applied to another back-end / configuration: instance floors add up
+            r = self.rules[rid]
+            r['min'] += min_instances
+            if desc and desc not in r['desc']:
+                r['desc'] += ' | ' + desc
+        else:
+            self.rules[rid] = dict(min=min_instances, desc=desc, count=0, viol=0)
         return rid
 
     def _add(self, status, instance, loc, expected=None, found=None, detail='', rule=None):
